@@ -25,13 +25,13 @@ MUTANTS["C05"] = [
     M("offset_not_strict", KDG, "max([i.line_number for i in kernel]) + 1)", "max([i.line_number for i in kernel]))", "R2",
       "revert of the fix: offset == largest line number"),
     M("offset_minus", KDG, "max([i.line_number for i in kernel]) + 1)", "max([i.line_number for i in kernel]) - 1)", "R2"),
-    M("seq_target_no_offset", KDG, "                    dg, instr.line_number, instr.line_number + offset\n                ):\n                    all_paths.append(path)",
-      "                    dg, instr.line_number, instr.line_number\n                ):\n                    all_paths.append(path)", "R1"),
+    M("seq_target_no_offset", KDG, "                source, target = instr.line_number, instr.line_number + offset\n",
+      "                source, target = instr.line_number, instr.line_number\n", "R1"),
     M("worker_target_shift", KDG, "dg, instr.line_number, instr.line_number + offset\n            )\n            tmp_list",
       "dg, instr.line_number, instr.line_number + offset + 1\n            )\n            tmp_list", "R1"),
     M("inverse_unguarded", KDG, "                if s >= offset:\n                    s -= offset", "                if s >= 0:\n                    s -= offset", "R1"),
     M("renumber_original", KDG, "temp_iform = copy.copy(orig_iform)", "temp_iform = orig_iform", "R1"),
-    M("seq_roots_slice", KDG, "            for instr in kernel:\n                for path in nx.algorithms", "            for instr in kernel[1:]:\n                for path in nx.algorithms", "R3"),
+    M("seq_roots_slice", KDG, "            for instr in kernel:\n                source, target", "            for instr in kernel[1:]:\n                source, target", "R3"),
     M("no_sort_before_key", KDG, "            lat_path.sort()\n", "            pass\n", "R4"),
     M("no_dedup_skip", KDG, "            if tuple(lat_path) in paths_set:\n                continue", "            if tuple(lat_path) in paths_set:\n                pass", "R4"),
     M("lat_sum_sub", KDG, "                lat_sum += edge_lat", "                lat_sum -= edge_lat", "R5"),
@@ -299,8 +299,15 @@ MUTANTS["C11"] = [
 
 _SEQ_DEADLINE = ('''            start_time = time.time()
             for instr in kernel:
+                source, target = instr.line_number, instr.line_number + offset
+                # restrict the search to the nodes lying on a path source -> target: dg is acyclic, so
+                # every branch of the enumeration then ends in a path and the timeout below is checked
+                # regularly (otherwise the generator can run for a very long time without yielding)
+                on_path = (nx.descendants(dg, source) | {source}) & (nx.ancestors(dg, target) | {target})
+                if target not in on_path or source not in on_path:
+                    continue
                 for path in nx.algorithms.simple_paths.all_simple_paths(
-                    dg, instr.line_number, instr.line_number + offset
+                    dg.subgraph(on_path), source, target
                 ):
                     all_paths.append(path)
                     if timeout != -1 and time.time() - start_time > timeout:
@@ -644,18 +651,18 @@ MUTANTS["C10"] += [
       "lanes is a non-empty token string: truthiness and presence coincide"),
 ]
 
-_SEQ_Q = "                    dg, instr.line_number, instr.line_number + offset\n                ):\n                    all_paths.append(path)"
+_SEQ_Q = "                    dg.subgraph(on_path), source, target\n                ):\n                    all_paths.append(path)"
 _WRK_Q = "                dg, instr.line_number, instr.line_number + offset\n            )\n            tmp_list"
 MUTANTS["C05"] += [
     M("worker_depth_bound_is_slice_length", KDG, [_SEQ_Q, _WRK_Q],
-      [_SEQ_Q.replace("+ offset\n", "+ offset, cutoff=klen\n"), _WRK_Q.replace("+ offset\n", "+ offset, cutoff=len(kernel)\n")], "R3",
+      [_SEQ_Q.replace("source, target\n", "source, target, cutoff=klen\n"), _WRK_Q.replace("+ offset\n", "+ offset, cutoff=len(kernel)\n")], "R3",
       "seeded change (round 2): in the worker `kernel` is its slice of roots"),
     M("depth_bound_by_node_count_is_fine", KDG, [_SEQ_Q, _WRK_Q],
-      [_SEQ_Q.replace("+ offset\n", "+ offset, cutoff=len(dg)\n"), _WRK_Q.replace("+ offset\n", "+ offset, cutoff=len(dg)\n")], "SILENT",
+      [_SEQ_Q.replace("source, target\n", "source, target, cutoff=len(dg)\n"), _WRK_Q.replace("+ offset\n", "+ offset, cutoff=len(dg)\n")], "SILENT",
       "a simple path cannot have more edges than the graph has nodes"),
     M("seq_skips_roots_already_on_a_cycle", KDG,
-      ["            start_time = time.time()\n            for instr in kernel:\n                for path in nx.algorithms", "                    all_paths.append(path)\n                    if timeout != -1"],
-      ["            start_time = time.time()\n            visited = set()\n            for instr in kernel:\n                if instr.line_number in visited:\n                    continue\n                for path in nx.algorithms",
+      ["            start_time = time.time()\n            for instr in kernel:\n                source, target", "                    all_paths.append(path)\n                    if timeout != -1"],
+      ["            start_time = time.time()\n            visited = set()\n            for instr in kernel:\n                if instr.line_number in visited:\n                    continue\n                source, target",
        "                    all_paths.append(path)\n                    visited.update(path)\n                    if timeout != -1"], "R3",
       "seeded change (round 2, given for C14): second cycle through an instruction is lost, depends on rotation"),
     M("worker_skips_roots_already_on_a_cycle", KDG,
@@ -665,10 +672,10 @@ MUTANTS["C05"] += [
 ]
 MUTANTS["C16"] += [
     M("worker_depth_bound_is_slice_length", KDG, [_SEQ_Q, _WRK_Q],
-      [_SEQ_Q.replace("+ offset\n", "+ offset, cutoff=klen\n"), _WRK_Q.replace("+ offset\n", "+ offset, cutoff=len(kernel)\n")], "R2",
+      [_SEQ_Q.replace("source, target\n", "source, target, cutoff=klen\n"), _WRK_Q.replace("+ offset\n", "+ offset, cutoff=len(kernel)\n")], "R2",
       "seeded change (round 2): the worker bounds the depth by its slice length, the sequential search by the kernel length"),
     M("different_but_sufficient_depth_bounds_are_fine", KDG, [_SEQ_Q, _WRK_Q],
-      [_SEQ_Q.replace("+ offset\n", "+ offset, cutoff=klen\n"), _WRK_Q.replace("+ offset\n", "+ offset, cutoff=len(dg)\n")], "SILENT",
+      [_SEQ_Q.replace("source, target\n", "source, target, cutoff=klen\n"), _WRK_Q.replace("+ offset\n", "+ offset, cutoff=len(dg)\n")], "SILENT",
       "both bounds are at least the longest possible path"),
     M("worker_skips_roots_already_on_a_cycle", KDG,
       ["        for instr in kernel:\n            generator_path", "            dst_list.extend(tmp_list)"],
@@ -799,3 +806,23 @@ for _p, _r in (("C16", "R1"), ("C05", "R3")):
         M("direct_slices_floor_chunk", KDG, [_PART_OLD, "workload = int((klen - 1) / num_cores) + 1"], [_PART_DIRECT, "workload = max(1, klen // num_cores)"], _r,
           "range(0, c * floor(n/c), W) stops before the end of the kernel"),
     ]
+
+_ONPATH_OLD = ('                source, target = instr.line_number, instr.line_number + offset\n'
+               '                # restrict the search to the nodes lying on a path source -> target: dg is acyclic, so\n'
+               '                # every branch of the enumeration then ends in a path and the timeout below is checked\n'
+               '                # regularly (otherwise the generator can run for a very long time without yielding)\n'
+               '                on_path = (nx.descendants(dg, source) | {source}) & (nx.ancestors(dg, target) | {target})\n'
+               '                if target not in on_path or source not in on_path:\n                    continue\n'
+               '                for path in nx.algorithms.simple_paths.all_simple_paths(\n                    dg.subgraph(on_path), source, target\n                ):\n')
+_ONPATH_REVERT = ('                for path in nx.algorithms.simple_paths.all_simple_paths(\n                    dg, instr.line_number, instr.line_number + offset\n                ):\n')
+MUTANTS["C19"] += [
+    M("revert_search_confined_to_paths", KDG, _ONPATH_OLD, _ONPATH_REVERT, "R6", "revert of the fix: the sequential deadline is only tested when a path is found"),
+]
+MUTANTS["C05"] += [
+    M("unconfined_search_is_fine", KDG, _ONPATH_OLD, _ONPATH_REVERT, "SILENT", "the set of paths is the same with and without the restriction"),
+    M("subgraph_of_descendants_only_loses_nothing_but_is_not_understood", KDG, "on_path = (nx.descendants(dg, source) | {source}) & (nx.ancestors(dg, target) | {target})",
+      "on_path = set(list(dg.nodes)[: len(dg) // 2])", "R3", "a sub-graph that drops nodes loses cycles: roots are skipped on a test that is not an unreachability test"),
+]
+MUTANTS["C16"] += [
+    M("unconfined_search_is_fine", KDG, _ONPATH_OLD, _ONPATH_REVERT, "SILENT", "the set of paths is the same with and without the restriction"),
+]
